@@ -28,7 +28,40 @@ for d in sorted(glob.glob(os.path.join(HERE, "seeded", "*-*"))):
         if m.get("history"):
             how += " — " + m["history"].split(";")[0]
         rows.append("| %s | %s | ./check %s | %s |" % (os.path.basename(d), notes, c["check"], how))
-table = "\n".join(rows) + "\n"
+# summary above the table
+tot = {"breaking": 0, "input": 0, "nfi": 0, "silent_right": 0, "undetected": 0, "first_missed": 0, "first_nfi": 0,
+       "benign": 0, "benign_loud": 0}
+for d in sorted(glob.glob(os.path.join(HERE, "seeded", "*-*"))):
+    m = json.load(open(os.path.join(d, "meta.json")))
+    if os.path.basename(d).startswith("benign"):
+        tot["benign"] += 1
+        tot["benign_loud"] += any(c["violation_lines"] for c in m["checks"])
+        continue
+    tot["breaking"] += 1
+    c = m["checks"][0]
+    h = m.get("history", "")
+    if c["violation_lines"] == 0 and m.get("confirmed", {}).get("demo_exit_patched") == 0:
+        tot["silent_right"] += 1
+    elif c["violation_lines"] == 0:
+        tot["undetected"] += 1
+    elif "no-failing-input-found" in c["first"]:
+        tot["nfi"] += 1
+    else:
+        tot["input"] += 1
+    hl = h.lower()
+    if "missed" in hl[:40] or "first run missed" in hl:
+        tot["first_missed"] += 1
+    elif hl.startswith("at first only") or "first run: only the tie" in hl or "first run: tie" in hl:
+        tot["first_nfi"] += 1
+summary = ("\n**Totals** (recomputed from `seeded/*/meta.json` by `tools/seedtable.py`): %(breaking)d breaking changes over "
+           "five rounds — %(input)d reported as `VIOLATION` with a concrete failing input, %(nfi)d as `VIOLATION … "
+           "no-failing-input-found` (an obligation broke and the search found nothing new), %(silent_right)d rightly "
+           "silent (the change stopped being a breakage after a `fix:` commit), %(undetected)d not detected. "
+           "%(first_missed)d of them were MISSED by the checks as they stood when the change arrived and %(first_nfi)d "
+           "were caught without a failing input at first; every such case led to a strengthening recorded in the row "
+           "(generators, corpora, oracles, histories). %(benign)d behaviour-preserving changes: %(benign_loud)d raise an "
+           "alarm now.\n" % tot)
+table = summary + "\n".join(rows) + "\n"
 p = os.path.join(HERE, "DESIGN.md")
 s = open(p).read()
 if "SEEDED_TABLE" in s and "<!-- SEEDED_TABLE_BEGIN -->" not in s:
